@@ -131,15 +131,18 @@ def colIntOk (c : ICert) (mask : List (List Bool)) (k : Nat) : Bool :=
     if (mask.getD r []).getD l false then near (c.colIntEntry r l) c.E (decide (r = 0 ∧ l = 0)) k
     else true
 
-/-- fixed dyadic interval around `1/(4π)` (numerators at exponent 40): `lo·4·3.141592 ≥ 1 − 10⁻⁶`,
- `hi·4·3.141593 ≤ 1 + 10⁻⁶` -/
-def b0sqLo : Nat := 87496354673
-def b0sqHi : Nat := 87496355774
+/-- fixed dyadic interval around `1/(4π)` (numerators at exponent 80), with the 20-digit bounds
+ `3.14159265358979323846 < π < 3.14159265358979323847` of Mathlib:
+ `lo·4·3.14159265358979323846 ≥ (1 − 10⁻¹⁵)·2⁸⁰`, `hi·4·3.14159265358979323847 ≤ (1 + 10⁻¹⁵)·2⁸⁰`
+ (`lo` / `hi` are the smallest / largest such integers; the float64 constants give
+ `b₀²·4π − 1 = −5.2·10⁻¹⁷`) -/
+def b0sqLo : Nat := 96203260011544519986650
+def b0sqHi : Nat := 96203260011544712392863
 
-/-- `b₀ > 0` and `lo/2^40 ≤ b₀² ≤ hi/2^40` -/
+/-- `b₀ > 0` and `lo/2^80 ≤ b₀² ≤ hi/2^80` -/
 def b0sqOk (c : ICert) : Bool :=
-  decide (0 < c.b0) && decide (b0sqLo * 2 ^ (2 * (c.ef + c.ep)) ≤ (c.b0 * c.b0).toNat * 2 ^ 40) &&
-  decide ((c.b0 * c.b0).toNat * 2 ^ 40 ≤ b0sqHi * 2 ^ (2 * (c.ef + c.ep)))
+  decide (0 < c.b0) && decide (b0sqLo * 2 ^ (2 * (c.ef + c.ep)) ≤ (c.b0 * c.b0).toNat * 2 ^ 80) &&
+  decide ((c.b0 * c.b0).toNat * 2 ^ 80 ≤ b0sqHi * 2 ^ (2 * (c.ef + c.ep)))
 
 /-- the `(0,0)` basis function is constant on the genuine nodes: `f[i][0] = f[0][0]` for `i < N₀`,
  `p[0][j][0] = p[0][0][0]` for `j < J₀` -/
